@@ -111,9 +111,10 @@ def main(ctx):
                 return "user key %r: read %r, written %r" % (k, hdr[k], v)
         return None
 
-    def roundtrip(case, rec, descr, nrows, hdr, writers, readers, nontriv):
-        d = T.make_table(descr, nrows, seed=ctx.seed)
-        want = d.copy()
+    def roundtrip(case, rec, descr, nrows, hdr, writers, readers, nontriv, layout="contig"):
+        want = T.make_table(descr, nrows, seed=ctx.seed)
+        d = T.relayout(want, layout)
+        snap = T.base_bytes(d)
         calls = 0
         for writer in writers:
             fn = os.path.join(rec.tmp, "c01.rec")
@@ -124,7 +125,7 @@ def main(ctx):
             except Exception as e:
                 return rec.fail(case, "%s raised %s: %s" % (writer, type(e).__name__, str(e)[:200]))
             calls += 1
-            if d.tobytes() != want.tobytes() or d.dtype.descr != want.dtype.descr:
+            if d.tobytes() != want.tobytes() or d.dtype.descr != want.dtype.descr or T.base_bytes(d) != snap:
                 return rec.fail(case, "%s modified its input array" % writer)
             raw = open(fn, "rb").read()
             nb = d.nbytes
@@ -199,6 +200,19 @@ def main(ctx):
                 bounds=dict(one_field_tables=n1, tables=len(tables), rows=rows, writers=WRITERS,
                             readers=READERS, kinds=T.KINDS, shapes=[str(s) for s in SHAPES]))
 
+    # -------------------------------------------- (a2) memory layouts of the input
+    def one_layout(case, rec):
+        descr, nrows, layout, writer = case
+        roundtrip(case, rec, descr, nrows, {"k": 1}, [writer], ["sfile.read", "Recfile(offset)"], True, layout=layout)
+
+    lunits = []
+    for descr in tables[:n1:3] + tables[-2:]:
+        for nrows in (1, 2, 5):
+            for layout in T.LAYOUTS[1:]:
+                for wsel in WRITERS:
+                    lunits.append((descr, nrows, layout, wsel))
+    ctx.lattice("input-layouts", lunits, one_layout, bounds=dict(layouts=T.LAYOUTS[1:], rows=[1, 2, 5]))
+
     # ----------------------------------------------------------- (b) headers
     HD = [("a", ">i4"), ("s", "S3"), ("x", "<f8", (2,))]
 
@@ -236,9 +250,9 @@ def main(ctx):
 
     # ------------------------------------------------- (d) header-less files
     def one_plain(case, rec):
-        descr, nrows, writer = case
-        d = T.make_table(descr, nrows, seed=ctx.seed + 1)
-        want = d.copy()
+        descr, nrows, writer = case[:3]
+        want = T.make_table(descr, nrows, seed=ctx.seed + 1)
+        d = T.relayout(want, case[3] if len(case) > 3 else "contig")
         fn = os.path.join(rec.tmp, "c01.bin")
         if os.path.exists(fn):
             os.unlink(fn)
@@ -273,6 +287,8 @@ def main(ctx):
 
     punits = [(descr, n, w) for descr in tables[:n1] + tables[-2:] for n in (1, 3)
               for w in ("recfile.write", "Recfile.write")]
+    punits += [(descr, n, w, layout) for descr in tables[:n1:5] for n in (2, 3)
+               for w in ("recfile.write", "Recfile.write") for layout in T.LAYOUTS[1:]]
     ctx.lattice("header-less", punits, one_plain, bounds=dict(tables=n1 + 2, rows=[1, 3]))
 
     # ------------------------------------------- (e) histories on one handle
